@@ -80,7 +80,7 @@ def gen_cases(rng, tier):
         yield {"kind": "inproc", "name": name, "sched_seed": rng.randrange(10 ** 6), "seed": rng.randrange(10 ** 9),
                "cs_kind": rng.choice(["mixed", "cont"]), "n_workers": rng.randint(2, 5), "max_events": 120, "style": "hurdle",
                "p_fail": 0, "max_t": 27, "extra": {"brackets": 1, "default_rung_system_kwargs": True},
-               "perturb_seed": rng.randrange(10 ** 6)}
+               "perturb_seed": rng.randrange(10 ** 6), "fresh_process": True}
     # PBT with a population large enough for the upper quantile to hold several trials (the exploit step then really draws)
     for i in range(4 if tier == "quick" else 40):
         yield {"kind": "inproc", "name": "pbt", "sched_seed": rng.randrange(10 ** 6), "seed": rng.randrange(10 ** 9),
@@ -159,6 +159,10 @@ def _first_diff(a, b):
 
 
 def run_impl(spec):
+    if spec.get("fresh_process"):
+        r = _sub(dict(spec, whole_case=True), 1)
+        r["meta"]["hist"]["in-process twins in a process of their own"] = 1
+        return {"lines": [], "monitor": r["monitor"], "meta": r["meta"]}
     name = spec["name"]
     mon = []
     hist = {"kind:" + spec["kind"]: 1, "sched:" + name: 1}
